@@ -165,11 +165,33 @@ pub fn profile(prop: &str, thorough: bool) -> Option<Profile> {
     }))
 }
 
+/// Second workload of C01/C02: the cover relation on keys and encapsulations produced *after*
+/// lifecycle operations (rekey, prune, disable, update, refresh): a freshly generated key must get
+/// the current secrets, whatever the history of the master key.
+pub fn lifecycle_profile(prop: &str, thorough: bool) -> Option<Profile> {
+    let mut p = profile("C04", thorough)?;
+    p.prop = match prop {
+        "C01" => "C01",
+        "C02" => "C02",
+        _ => return None,
+    };
+    p.name = "lifecycle-cover";
+    p.w = Weights {
+        rekey: 6, prune: 3, disable: 2, update: 4, keygen: 9, refresh: 5, encaps: 11, roundtrip: 2, matrix: 5,
+        ..Weights::zero()
+    };
+    p.random_hints = true;
+    p.max_usks = 8;
+    p.max_encs = 10;
+    Some(p)
+}
+
 /// Is this history non-trivial for the property, and what is its shape?
 fn shape_of(prop: &str, w: &World) -> Option<u64> {
     let f = &w.flags;
     let kinds: String = w.log.iter().map(|l| l.split('(').next().unwrap_or("")).collect::<Vec<_>>().join(",");
     let nontrivial = match prop {
+        "C01" | "C02" if w.p.name == "lifecycle-cover" => w.log.iter().any(|l| l.starts_with("rekey")) && w.log.iter().any(|l| l.starts_with("keygen")),
         "C01" | "C02" => return None, // shapes are recorded per (key, encapsulation) pair by the engine
         "C03" => (f.add_after_delete || f.add_after_rename) && f.enc_on_new_attr_old_key,
         "C04" => f.unequal_chains_at_decaps,
@@ -189,6 +211,7 @@ fn shape_of(prop: &str, w: &World) -> Option<u64> {
 }
 
 pub struct RunCfg {
+    pub profile_name: Option<String>,
     pub thorough: bool,
     pub prop: String,
     pub seed: u64,
@@ -198,7 +221,11 @@ pub struct RunCfg {
 }
 
 pub fn run(cfg: &RunCfg) -> Stats {
-    let Some(profile) = profile(&cfg.prop, cfg.thorough) else {
+    let chosen = match cfg.profile_name.as_deref() {
+        Some("lifecycle") => lifecycle_profile(&cfg.prop, cfg.thorough),
+        _ => profile(&cfg.prop, cfg.thorough),
+    };
+    let Some(profile) = chosen else {
         let mut s = Stats::default();
         s.inconclusive.push(format!("no profile for {}", cfg.prop));
         return s;
